@@ -5,7 +5,7 @@ package io
 
 //@ -- ------------------------------------------------------------------ Writer
 //@ spec (this *Writer) flags01() = (this.closed == 0 || this.closed == 1) && (this.closing == 0 || this.closing == 1) && (this.finalized == 0 || this.finalized == 1) && (this.initialized == 0 || this.initialized == 1)
-//@ spec (this *Writer) repW() = this.obs != nil && 1024 <= this.blockSize && this.blockSize <= 1073741824 && this.blockSize % 16 == 0 && 1 <= this.jobs && this.jobs <= 64 && len(this.buffers) == 2*this.jobs && 0 <= this.available && this.available <= this.jobs*this.blockSize && this.nbInputBlocks <= 63 && this.flags01() && (this.finalized == 1 ==> this.available == 0 && this.closing == 1) && 0 - 1 <= this.blockID
+//@ spec (this *Writer) repW() = this.obs != nil && 1024 <= this.blockSize && this.blockSize <= 1073741824 && this.blockSize % 16 == 0 && 1 <= this.jobs && this.jobs <= 64 && len(this.buffers) == 2*this.jobs && 0 <= this.available && this.available <= this.jobs*this.blockSize && this.nbInputBlocks <= 63 && this.entropyType <= 31 && this.transformType < 281474976710656 && 0 <= this.inputSize && this.flags01() && (this.finalized == 1 ==> this.available == 0 && this.closing == 1) && 0 - 1 <= this.blockID
 //@ spec (this *Writer) buffersOK() = forall k :: 0 <= k && k < this.jobs ==> (len(this.buffers[k].Buf) == 0 || len(this.buffers[k].Buf) >= this.blockSize) && (k*this.blockSize <= this.available ==> len(this.buffers[k].Buf) >= this.blockSize)
 
 //@ -- ------------------------------------------------------------------ context accessors and constructors
@@ -101,6 +101,7 @@ package io
 //@   ensures this.obs.oclosed == old(this.obs.oclosed) && this.obs.plain == old(this.obs.plain)
 //@   panics this.obs.ofailed || old(this.obs.oclosed)                           #bitstream-may-panic
 //@   panics !this.headless && old(this.initialized) == 0
+//@   atcall OutputBitStream.WriteBits arg2 == 24 || fits(arg1, arg2)              #header-field-fits-its-width @C01 @C10
 //@   modifies this.initialized, this.obs.wbits, this.obs.ofailed, this.obs.tapeV, this.obs.tapeW
 
 //@ func (*Writer) processBlock
@@ -250,8 +251,20 @@ package io
 //@   ensures len(this.iBuffer.Buf) >= old(len(this.iBuffer.Buf))
 //@   ensures this.ibs.rbitsI >= old(this.ibs.rbitsI) && this.ibs.iclosed == old(this.ibs.iclosed)
 //@   modifies res.err, res.data, res.decoded, res.blockID, res.skipped, res.checksum, res.completionTime.all, *this.processedBlockID, this.blockTransformType, this.blockEntropyType, this.iBuffer.Buf, this.oBuffer.Buf, this.ctx[*], this.listeners[*], this.ibs.rbitsI, this.ibs.ieof, this.ibs.aligned, this.ibs.ipos, "A!Int"
-//@   loop 1 invariant res.err == nil && !res.skipped && res.decoded == 0 && !skipped && decoded == 0 && *this.processedBlockID == old(*this.processedBlockID) && this.ibs.rbitsI == old(this.ibs.rbitsI) && this.ibs.iclosed == old(this.ibs.iclosed) && this.iBuffer.Buf == old(this.iBuffer.Buf) && data == old(this.iBuffer.Buf)
-//@   loop 2 invariant res.err == nil && !res.skipped && res.decoded == 0 && !skipped && decoded == 0 && *this.processedBlockID == old(*this.processedBlockID) && old(*this.processedBlockID) == this.currentBlockID - 1 && this.ibs.rbitsI >= old(this.ibs.rbitsI) && this.ibs.iclosed == old(this.ibs.iclosed) && len(this.iBuffer.Buf) >= old(len(this.iBuffer.Buf)) && data == this.iBuffer.Buf
+//@   ghostlocal reads int = 0
+//@   ghostlocal lastv int = 1
+//@   ghostlocal sawCancel bool = false
+//@   aftercall InputBitStream.ReadBits set reads = reads + 1
+//@   aftercall InputBitStream.ReadBits set lastv = result
+//@   aftercall InputBitStream).ReadBits set reads = reads + 1
+//@   aftercall atomic.LoadInt32 set sawCancel = sawCancel || result == 0 - 1
+//@   atreturn res.err == nil && decoded == 0 && !skipped && reads <= 2 ==> sawCancel || (reads == 2 && lastv == 0)        #clean-end-only-after-the-end-marker @C09
+//@   ghostlocal hashed bool = false
+//@   aftercall XXHash32).Hash set hashed = true
+//@   aftercall XXHash64).Hash set hashed = true
+//@   atreturn res.err == nil && decoded > 0 && (this.hasher32 != nil || this.hasher64 != nil) ==> hashed             #delivered-block-was-hashed @C02
+//@   loop 1 invariant res.err == nil && !res.skipped && res.decoded == 0 && !skipped && decoded == 0 && *this.processedBlockID == old(*this.processedBlockID) && this.ibs.rbitsI == old(this.ibs.rbitsI) && this.ibs.iclosed == old(this.ibs.iclosed) && this.iBuffer.Buf == old(this.iBuffer.Buf) && data == old(this.iBuffer.Buf) && !hashed && reads == 0 && !sawCancel
+//@   loop 2 invariant res.err == nil && !res.skipped && res.decoded == 0 && !skipped && decoded == 0 && *this.processedBlockID == old(*this.processedBlockID) && old(*this.processedBlockID) == this.currentBlockID - 1 && this.ibs.rbitsI >= old(this.ibs.rbitsI) && this.ibs.iclosed == old(this.ibs.iclosed) && len(this.iBuffer.Buf) >= old(len(this.iBuffer.Buf)) && data == this.iBuffer.Buf && !hashed && reads == 2 && lastv != 0
 
 //@ func (*Reader) processBlock
 //@   mode int
